@@ -96,7 +96,8 @@ class C16(Prop):
                          ["--uncompressed"], ["-unc"], ["--block-size", "5"], ["-blockSize=5"], ["--zooms", "10", "40"],
                          ["--single-pass", "--inmemory", "-t", "3", "-unc"], ["MULTICALL"]]
             if tier != "thorough":
-                variants = [variants[i] for i in range(len(variants)) if (i + k) % 3 == 0 or variants[i] == ["MULTICALL"]]
+                must = (["MULTICALL"], ["--parallel", "yes", "-t", "4"], ["-unc"])
+                variants = [variants[i] for i in range(len(variants)) if (i + k) % 3 == 0 or variants[i] in must]
             for vi, flags in enumerate(variants):
                 outb = os.path.join(d, f"o{k}_{vi}." + ("bb" if bed else "bw"))
                 if flags == ["MULTICALL"]:
